@@ -830,6 +830,9 @@ func (f *fragment) unprotectedSetRow(row *Row, rowID uint64) (changed bool, err 
 	// invalidate rowCache for this row.
 	f.rowCache.Add(rowID, nil)
 
+	// Invalidate block checksum.
+	delete(f.checksums, int(rowID/HashBlockSize))
+
 	// Snapshot storage.
 	f.enqueueSnapshot()
 	f.stats.Count("setRow", 1, 1.0)
@@ -873,6 +876,9 @@ func (f *fragment) unprotectedClearRow(rowID uint64) (changed bool, err error) {
 	// Clear the row in cache.
 	f.cache.Add(rowID, 0)
 	f.rowCache.Add(rowID, nil)
+
+	// Invalidate block checksum.
+	delete(f.checksums, int(rowID/HashBlockSize))
 
 	// Snapshot storage.
 	f.enqueueSnapshot()
@@ -2228,9 +2234,10 @@ func (f *fragment) importValue(columnIDs []uint64, values []int64, bitDepth uint
 		return err
 	}
 	// The rows were rewritten in storage directly, so drop any cached copy
-	// of them.
+	// of them and the checksums of their blocks.
 	for i := uint(0); i < bitDepth+bsiOffsetBit; i++ {
 		f.rowCache.Add(uint64(i), nil)
+		delete(f.checksums, int(uint64(i)/HashBlockSize))
 	}
 
 	// We don't actually care, except we want our stats to be accurate.
@@ -2271,6 +2278,10 @@ func (f *fragment) importRoaring(ctx context.Context, data []byte, clear bool) e
 			continue
 		}
 		f.rowCache.Add(rowID, nil)
+
+		// Invalidate block checksum.
+		delete(f.checksums, int(rowID/HashBlockSize))
+
 		if updateCache {
 			anyChanged = true
 			f.cache.BulkAdd(rowID, f.cache.Get(rowID)+uint64(changes))
